@@ -18,5 +18,10 @@ func ByNameSmart(a, b string) bool {
 	if err0 == nil && err1 == nil {
 		return v0 < v1
 	}
+	if (err0 == nil) != (err1 == nil) {
+		// Numbers order before text, otherwise the relation isn't transitive
+		// eg. "2" < "10" (numeric), "10" < "1a" (text), "1a" < "2" (text)
+		return err0 == nil
+	}
 	return a < b
 }
